@@ -34,6 +34,16 @@ def refineX (p : Nat) (U : List K) (density : Nat) (tol : K) : List K :=
   let kl := iterate densify density (sortDedup ((U.drop p).take (U.length - 2 * p)))
   kl.flatMap (fun mk => List.replicate (p - findMultiplicity mk U tol) mk)
 
+/-- the list `X` for an explicit `knot_list` (`none` = default `U[p:-p]`) and `add_knot_list`, as
+    `helpers.knot_refinement` computes it: merge, `sorted(set(..))`, `density` bisection rounds,
+    `p - s` copies of every listed knot -/
+def refineXOf (p : Nat) (U : List K) (kl : Option (List K)) (add : List K) (density : Nat) (tol : K) : List K :=
+  let base := match kl with
+    | some l => l
+    | none => (U.drop p).take (U.length - 2 * p)
+  let ks := iterate densify density (sortDedup (base ++ add))
+  ks.flatMap (fun mk => List.replicate (p - findMultiplicity mk U tol) mk)
+
 /-- insert one knot once (span and multiplicity recomputed on the current knot vector) -/
 def insertOne (p : Nat) (tol : K) (st : List K × List (List K)) (x : K) : List K × List (List K) :=
   let k := findSpanLinear p (fnOf st.1) st.2.length x
@@ -46,6 +56,12 @@ def insertOne (p : Nat) (tol : K) (st : List K × List (List K)) (x : K) : List 
 def knotRefinement (p : Nat) (U : List K) (P : List (List K)) (density : Nat) (tol : K) :
     Option (List K × List (List K)) :=
   let X := refineX p U density tol
+  if X.isEmpty then none else some (X.foldl (insertOne p tol) (U, P))
+
+/-- helper-level `helpers.knot_refinement(p, U, P, knot_list=kl, add_knot_list=add, density=d)` -/
+def knotRefinementOf (p : Nat) (U : List K) (P : List (List K)) (kl : Option (List K)) (add : List K)
+    (density : Nat) (tol : K) : Option (List K × List (List K)) :=
+  let X := refineXOf p U kl add density tol
   if X.isEmpty then none else some (X.foldl (insertOne p tol) (U, P))
 
 def refineDir (S : Shape K) (dir density : Nat) (tol : K) : Option (Shape K) :=
